@@ -68,7 +68,8 @@ Prefixes == <<
      Op("cadd", "remote", "origin", "push", "refs/tags/v1", ""),
      Op("add", "origin2", U1, "", "tags", ""),
      Op("cset", "branch", "main", "remote", "origin", ""),
-     Op("mkref", RemRef("origin", "main"), "1", "", "", ""), Op("mkref", RemRef("origin2", "main"), "2", "", "", "") >>
+     Op("mkref", RemRef("origin", "main"), "1", "", "", ""), Op("mkref", RemRef("origin2", "main"), "2", "", "", ""),
+     Op("add", "Origin", U1, "main", "", "") >>      \* a remote without refs: renaming onto it meets no ref clash
 >>
 
 -----------------------------------------------------------------------------
@@ -131,7 +132,7 @@ Ops ==
   \* config replace-all
   \cup {Op("creplace", k[1], k[2], k[3], v, p) : k \in RepK, v \in RepV, p \in RepP}
   \cup {Op("creplace", "remote", "origin", "url", U3, "")}
-  \cup {Op("creplace", "remote", "origin", "push", "a*b", "")}
+  \cup {Op("creplace", "remote", "origin", "push", "refs/h*ads/x", "")}
   \* config rename-section
   \cup {Op("crensec", "remote", o, n, "", "") : o \in SecN, n \in SecN}
   \cup {Op("crensec", "branch", o, n, "", "") : o \in BR, n \in {"main", "a/b", "dev"}}
@@ -177,14 +178,14 @@ Run(ops, s, acc) ==
 -----------------------------------------------------------------------------
 (* refspec universe                                                        *)
 
-Srcs == {"", "refs/heads/main", "refs/heads/*", "refs/heads/a/b", "refs/heads/a/b/*", "main~4", "main^", "refs/*"}
+Srcs == {"", "refs/heads/main", "refs/heads/*", "refs/heads/a/b", "refs/heads/a/b/*", "main~4", "main^", "refs/*", "dev"}
 Dsts == {"", "refs/remotes/origin/main", "refs/remotes/origin/*", "refs/remotes/or_gin/a/b/*", "refs/heads/main", "refs/*"}
 Tags == {"v1", "v1.0.*", "*"}
 RSUniverse ==
   {r \in {RS(f, n, "", s, d) : f \in BOOLEAN, n \in BOOLEAN, s \in Srcs, d \in Dsts} : WellFormed(r)}
   \cup {RS(f, FALSE, t, "", "") : f \in BOOLEAN, t \in Tags}
 BadTexts == {"refs/heads/*", "refs/h*ads/x:refs/y", "^refs/heads/main:refs/x", "refs/heads/*:refs/x",
-             "refs/x:refs/heads/*", "a*b", "refs/heads/**:refs/x/**"}
+             "refs/x:refs/heads/*", "a*b", "refs/heads/**:refs/x/**", "x*y:refs/z"}
 MatchNames == {"refs/heads/main", "refs/heads/a/b", "refs/heads/a", "refs/tags/v1", "refs/tags/v1.0.3",
                "refs/remotes/origin/main", "refs/remotes/origin2/main", "refs/remotes/or_gin/a/b/c", "refs/x"}
 
@@ -200,14 +201,15 @@ RSLine(s) ==
   LET r == Parse(s)
       c == ParseAsCoded(s)
   IN [rs |-> s,
-      kind |-> IF r = ParseErr THEN "malformed"
+      kind |-> IF ShortTextPanics(s) THEN "short"
+               ELSE IF r = ParseErr THEN "malformed"
                ELSE IF r.tag # "" THEN (IF r.force THEN "tag-forced" ELSE "tag")
                ELSE IF r.force /\ r.neg THEN "force-negate"
                ELSE IF IsGlob(r.src) THEN "glob" ELSE "plain",
       ok |-> B2S(r # ParseErr),
       rec |-> RecOut(r),
       rows |-> {Row(r, n) : n \in MatchNames},
-      cok |-> B2S(c # ParseErr),
+      cok |-> IF ShortTextPanics(s) THEN "PANIC" ELSE B2S(c # ParseErr),
       crec |-> RecOut(c),
       crows |-> {RowAsCoded(c, n) : n \in MatchNames}]
 
